@@ -6,6 +6,10 @@ Families:
   rand   random sequences
   special  the ancilla-free special forms (x <= y, OR form 1 <= x + y, AND form z == x*y, sum <= 1) x 6 relations x
          log_trick, with label realisations that contain True / False
+  mag    extreme-magnitude weights: every template x relation with lam in {1/10^18, 3/2^70, 1/2^60, 1/2^55, 7/10^16, 2^60,
+         3*2^70, 10^18+1} (exact Fractions / ints; a dyadic weight shared by the whole case also as floats), and `== 0`
+         constraints whose coefficients and bounds are scaled by 2^60, 10^18+1, 2^-60, 1/10^18.  The model is over exact
+         rationals; the oracle's truth table switches to exact Python integers when the coefficients leave int64.
 Every abstract case is run on the real code under five label realisations (ints, strings, int/str/tuple mix, False/True next
 to strings, and per case four labels drawn from a pool of unusual hashable types: None, False, True, floats, frozensets,
 ints, strings incl. "", tuples incl. ()); all must agree with the model, and a realisation that behaves differently is judged
@@ -25,6 +29,8 @@ RULE = ("sequences of 1..4 add_constraint_R_zero calls on one PCBO: polynomials 
         "unsorted/repeated labels, PUBO, PCBO) x number type (int, Fraction, dyadic float) x 5 label realisations (int, str, "
         "int/str/tuple mix, False/True + strings, four labels from a pool of None / bool / float / frozenset / int / str / "
         "tuple objects per case); family special: the four ancilla-free special forms x relation x log_trick with bool labels; "
+        "family mag: the same with lam of extreme magnitude (1/10^18 .. 3*2^70, Fractions and dyadic floats) and == 0 "
+        "constraints with coefficients scaled by 2^60, 10^18+1, 2^-60, 1/10^18; "
         "non-trivial = first polynomial has >=2 terms and the call adds >=1 term; distinct = distinct case JSON")
 ASSUMPTIONS = ["float coefficients/bounds are restricted to dyadic rationals so IEEE arithmetic is exact",
                "the direct oracle enumerates all assignments of variables and ancillas only when their number is <= 12 "
@@ -321,15 +327,19 @@ def table(terms, order):
     for v in terms.values():
         den = den * v.denominator // __import__("math").gcd(den, v.denominator)
     idx = np.arange(1 << len(order), dtype=np.int64)
-    tot = np.zeros(1 << len(order), dtype=np.int64)
+    # extreme magnitudes (lam = 10^18 + 1, 1/2^60 next to 1/10^18 ...): exact Python integers in an object array
+    big = any(abs(int(v * den)) > (1 << 40) for v in terms.values())
+    tot = np.zeros(1 << len(order), dtype=object if big else np.int64)
     for k, v in terms.items():
         mask = 0
         for l in k:
             mask |= 1 << pos[l]
         c = int(v * den)
-        if abs(c) > (1 << 40):
-            raise Infra("coefficient too large for the oracle")
-        tot += c * ((idx & mask) == mask)
+        if big:
+            sel = (idx & mask) == mask
+            tot[sel] = tot[sel] + c
+        else:
+            tot += c * ((idx & mask) == mask)
     return tot, den
 
 def oracle(case, impl, would):
@@ -475,11 +485,60 @@ def special_cases(rng, reps):
                     out.append(c)
     return out
 
+MAG_LAMS = ["1/1000000000000000000", "3/1180591620717411303424", "1/1152921504606846976", "1/36028797018963968",
+            "7/10000000000000000", "1152921504606846976", "3541774862152233910272", "1000000000000000001"]
+MAG_COEF = ["1152921504606846976", "1000000000000000001", "1/1152921504606846976", "1/1000000000000000000"]
+
+def float_exact_small(s):
+    f = Fraction(s)
+    m = abs(f.numerator)
+    while m and m % 2 == 0:
+        m //= 2
+    return f.denominator & (f.denominator - 1) == 0 and m < 2 ** 20
+
+def mag_cases(rng, reps):
+    """extreme-magnitude weights (1/10^18 .. 3*2^70: exact Fractions / ints; one dyadic weight per case also as floats) for
+    every template x relation, and `== 0` constraints whose coefficients and bounds are scaled by 2^60, 10^18+1, 2^-60, 1/10^18"""
+    out, idx = [], 0
+    for _ in range(reps):
+        for t in TEMPLATES:
+            for rel in RELS:
+                bm = BMS[idx % (len(BMS) - 1)]
+                c = gen_case(rng, "mag", (t, rel, bool(idx % 2), bm))
+                same = rng.random() < 0.5
+                lam0 = MAG_LAMS[idx % len(MAG_LAMS)]
+                for st in c["seq"]:
+                    st["lam"] = lam0 if same else rng.choice(MAG_LAMS + ["1", "2"])
+                    integer = all(Fraction(v).denominator == 1 for _, v in st["P"])
+                    st["oracle"] = bool(integer and st["bm"] != "invalid")
+                c["num"] = "frac"
+                if same and float_exact_small(lam0) and idx % 3 == 0 and all(
+                        dyadic(v) for s in c["seq"] for v in [x[1] for x in s["P"]] + [b for b in (s["lo"], s["hi"]) if b is not None]):
+                    c["num"] = "float"
+                out.append(c)
+                idx += 1
+        for t in TEMPLATES:
+            for cf in MAG_COEF:
+                c = gen_case(rng, "mag", (t, "eq", True, BMS[idx % (len(BMS) - 1)]))
+                c["seq"] = c["seq"][:1]
+                st = c["seq"][0]
+                f = Fraction(cf)
+                st["P"] = [[k, fs(Fraction(v) * f)] for k, v in st["P"]]
+                st["lo"] = None if st["lo"] is None else fs(Fraction(st["lo"]) * f)
+                st["hi"] = None if st["hi"] is None else fs(Fraction(st["hi"]) * f)
+                st["lam"] = rng.choice(["1", "2", "1/2"] + MAG_LAMS)
+                st["oracle"] = bool(all(Fraction(v).denominator == 1 for _, v in st["P"]) and st["bm"] != "invalid")
+                c["num"] = "frac"
+                out.append(c)
+                idx += 1
+    return out
+
 def check(ctx):
     rng = ctx.rng
     cases = grid_cases(rng, ctx.scale(2, 12))
     cases += special_cases(rng, ctx.scale(4, 40))
     cases += [gen_case(rng, "rand") for _ in range(ctx.scale(400, 12000))]
+    cases += mag_cases(rng, ctx.scale(2, 20))          # generated last: the earlier streams are unchanged
     tags = {}
     process(ctx, cases, tags)
     low = {t: tags.get(t, 0) for t in ALL_TAGS if tags.get(t, 0) < MIN_TAG_HITS}
